@@ -77,6 +77,10 @@ func insertedPayload(kind int) []byte {
 		return []byte{80, 0, 0, 0, 1, 'x', 0}
 	case 21:
 		return []byte{21}
+	case 30: // a key exchange method message: e.g. SSH_MSG_KEX_DH_GEX_REQUEST_OLD (uint32 n) or an INIT with a short value
+		return []byte{30, 0, 0, 8, 0}
+	case 34: // SSH_MSG_KEX_DH_GEX_REQUEST min, n, max
+		return []byte{34, 0, 0, 8, 0, 0, 0, 8, 0, 0, 0, 32, 0}
 	default:
 		return []byte{byte(kind), 1, 2, 3}
 	}
